@@ -53,7 +53,7 @@ def Ent2.claims (e : Ent2) (a : Nat) : Prop := e.geo.claims a
 /-- claimed without overlap check -/
 def Ent2.silent (e : Ent2) : Prop := e.role = .sizePadding
 
-instance (e : Ent2) : Decidable e.silent := by unfold Ent2.silent; infer_instance
+instance Ent2.decSilent (e : Ent2) : Decidable e.silent := by unfold Ent2.silent; infer_instance
 
 theorem LClaims_geo (L : List Ent) (a : Nat) : LClaims (L.map Ent.geo) a ↔ LClaims L a := by
   unfold LClaims
